@@ -49,8 +49,11 @@ InfoOk(r) ==
                           /\ (cfg[c] # Unbounded => r.info[c].currsize <= cfg[c])
                           /\ r.info[c].currsize >= 0
 
+\* exception classes seen in the step's observations: only the documented ones (C19; in a thread as anywhere else)
+ExcsOk(r) == "excs" \in DOMAIN r => \A i \in 1..Len(r.excs) : r.excs[i] \in {"ValueError", "TypeError"}
 Failing(r) ==
   (IF Contradicts(r) # {} THEN {Prop \o ".stable"} ELSE {})
+  \cup (IF ~ExcsOk(r) THEN {Prop \o ".exception_class"} ELSE {})
   \cup (IF ~InfoOk(r) THEN {Prop \o ".cache_info"} ELSE {})
   \cup (IF "crash" \in DOMAIN r THEN {Prop \o ".no_exception"} ELSE {})
 
